@@ -2125,3 +2125,70 @@ func ruleKeepPaths(c *Ctx, r *Rep) {
 	})
 	r.Check(len(probes) == 0, "keeppaths:NewModuleLoader", fd.Pos(), "NewModuleLoader does not probe the file system (%v): %v — which entries exist, and whether one is the file ~/.jq, is found out when a module is looked up", probes, len(probes) == 0)
 }
+
+// ---------------------------------------------------------------------------------------------------------------------
+// R-C18-searchfirst: the directory named by an import's `search` metadata is tried first, whatever else is on the list.
+
+func init() {
+	reg(&Rule{ID: "R-C18-searchfirst", Props: []string{"C18"}, Floor: 1,
+		Doc: "lookupModule puts the directory from the import's `search` metadata in front of the loader's paths under conditions on that directory alone (it is a string, it resolves to something non-empty), never on the contents of the list: skipping it because the list already contains it demotes it from first to wherever it stands there",
+		Run: ruleSearchFirst})
+	addDecided("C18", " The `search` directory of an import is prepended whatever the library path holds (R-C18-searchfirst).")
+}
+
+func ruleSearchFirst(c *Ctx, r *Rep) {
+	fd := c.Decl(c.Gojq, "moduleLoader.lookupModule")
+	if fd == nil {
+		r.Undecided("searchfirst:lookupModule", token.NoPos, "not found")
+		return
+	}
+	info := c.Gojq.TypesInfo
+	n := 0
+	walkStack(fd.Body, func(m ast.Node, stack []ast.Node) bool {
+		as, ok := m.(*ast.AssignStmt)
+		if !ok || len(as.Lhs) != 1 || len(as.Rhs) != 1 {
+			return true
+		}
+		call, ok := unparen(as.Rhs[0]).(*ast.CallExpr)
+		if !ok || types.ExprString(call.Fun) != "append" || len(call.Args) != 2 || !call.Ellipsis.IsValid() {
+			return true
+		}
+		// append([]string{X}, list...): a prepend
+		cl, ok := unparen(call.Args[0]).(*ast.CompositeLit)
+		if !ok || len(cl.Elts) != 1 {
+			return true
+		}
+		listID, ok := unparen(call.Args[1]).(*ast.Ident)
+		if !ok {
+			return true
+		}
+		n++
+		listObj := info.ObjectOf(listID)
+		dependsOnList := ""
+		for _, a := range stack {
+			ifs, ok := a.(*ast.IfStmt)
+			if !ok {
+				continue
+			}
+			for _, part := range []ast.Node{ifs.Init, ifs.Cond} {
+				if part == nil {
+					continue
+				}
+				ast.Inspect(part, func(q ast.Node) bool {
+					if id, ok := q.(*ast.Ident); ok && info.ObjectOf(id) == listObj {
+						dependsOnList = c.Src(ifs.Cond)
+					}
+					if sel, ok := q.(*ast.SelectorExpr); ok && sel.Sel.Name == "paths" {
+						dependsOnList = c.Src(ifs.Cond)
+					}
+					return true
+				})
+			}
+		}
+		r.Check(dependsOnList == "", "searchfirst:"+c.Src(as), as.Pos(), "the prepend `%s` is not conditional on the list itself (%s): %v — with -L A -L B, `import \"m\" as m {search:\"B\"}` must load B/m.jq, not A/m.jq", c.Src(as), dependsOnList, dependsOnList == "")
+		return true
+	})
+	if n == 0 {
+		r.Undecided("searchfirst:census", token.NoPos, "lookupModule does not prepend a directory to its list of paths")
+	}
+}
